@@ -262,7 +262,8 @@ def _plan_str(plan: List[Dict[str, Any]]) -> str:
         return "[]"
     parts = []
     for f in plan:
-        where = ("#%d" % f["at"]) if "at" in f else ("%s[%d]" % (f["name"], f["occ"]))
+        where = ("#%d" % f["at"]) if "at" in f else (
+            "%s.%s[%d]" % (f["site"], f["name"], f["socc"]) if "socc" in f else "%s[%d]" % (f["name"], f["occ"]))
         t = fault_tag(f) + (("(n=%d)" % f["n"]) if "n" in f else "")
         parts.append(where + ":" + t)
     if len(parts) > 6:
@@ -419,7 +420,7 @@ def faults_at(ent: Dict[str, Any], errnos: List[str]) -> List[Dict[str, Any]]:
 
 
 def fault_key(ent: Dict[str, Any], f: Dict[str, Any]) -> Tuple:
-    return (ent["site"], ent["name"], ent["occ"], fault_tag(f), f.get("n"))
+    return (ent["site"], ent["name"], ent["socc"], fault_tag(f), f.get("n"))
 
 
 def retry_bound() -> Tuple[int, str]:
@@ -452,7 +453,8 @@ def transient_plans(trace: List[Dict[str, Any]], R: int) -> List[List[Dict[str, 
 def minimise(combo: Tuple[str, str, str], plan, names: str, r: Res, w: str):
     """A violating plan whose proper sub-plan (no fault / one of its two faults alone) already violates belongs to
     the sub-plan: report that one (smaller witness, and one signature per root cause instead of one per bystander
-    fault).  Faults are re-addressed by label + occurrence so that they keep their meaning when another is dropped."""
+    fault).  Faults are re-addressed by (calling function, label, occurrence within that function) so that they keep
+    their meaning when another one is dropped."""
     if not r.viol or not plan:
         return r.viol, plan
     addr = []
@@ -460,7 +462,7 @@ def minimise(combo: Tuple[str, str, str], plan, names: str, r: Res, w: str):
         if "at" in f:
             ent = r.trace[f["at"]]
             g = {k: v for k, v in f.items() if k != "at"}
-            g["name"], g["occ"] = ent["name"], ent["occ"]
+            g["name"], g["site"], g["socc"] = ent["name"], ent["site"], ent["socc"]
             addr.append(g)
         else:
             addr.append(f)
